@@ -782,6 +782,75 @@ func timeoutHandler(c *core.Ctx) {
 		}
 	}
 	c.Check(passes, "ServeHTTP/ctx-to-implementation", fd.Pos(), "the implementation receives the context returned by SetTimeout")
+	// Some SetTimeout implementations return a nil context together with an error. Every use of the
+	// context in ServeHTTP must then be on a path where the error is nil or the context was replaced.
+	nilCtxOnError := false
+	for _, m := range impls {
+		mfd := p.Decl(m)
+		for _, ret := range astx.Returns(mfd.Body) {
+			if len(ret.Results) == 3 && !astx.IsNil(info, ret.Results[2]) && astx.IsNil(info, ret.Results[0]) {
+				nilCtxOnError = true
+			}
+		}
+	}
+	if nilCtxOnError {
+		errObj0 := resultObj(info, fd.Body, setTimeout, 2)
+		var stAssign ast.Node
+		ast.Inspect(fd.Body, func(n ast.Node) bool {
+			if as, ok := n.(*ast.AssignStmt); ok && len(as.Rhs) == 1 && astx.Unparen(as.Rhs[0]) == ast.Expr(setTimeout) {
+				stAssign = as
+			}
+			return true
+		})
+		badUses := 0
+		w := astx.NewWalker(info, fd.Body)
+		w.OnNode = func(s *astx.State, n ast.Node) bool {
+			if n == stAssign || !s.AnyStep(func(x ast.Node) bool { return x == stAssign }) {
+				return false
+			}
+			// a use: ctx mentioned in n other than as assignment target
+			uses := false
+			ast.Inspect(n, func(x ast.Node) bool {
+				if as, ok := x.(*ast.AssignStmt); ok {
+					for _, r := range as.Rhs {
+						if astx.Mentions(info, r, ctxObj) {
+							uses = true
+						}
+					}
+					return false
+				}
+				if id, ok := x.(*ast.Ident); ok && info.Uses[id] == ctxObj {
+					uses = true
+				}
+				return true
+			})
+			if !uses {
+				return false
+			}
+			errNil := s.HasFact(func(e ast.Expr, pol bool) bool {
+				l, op, r, ok := astx.CompareOp(e)
+				return ok && astx.IsNil(info, r) && astx.ObjOf(info, l) == errObj0 && (op == token.EQL) == pol
+			})
+			replaced := false
+			for i := len(s.Steps) - 1; i >= 0 && s.Steps[i] != stAssign; i-- {
+				if as, ok := s.Steps[i].(*ast.AssignStmt); ok {
+					for j, l := range as.Lhs {
+						if astx.ObjOf(info, l) == ctxObj && j < len(as.Rhs) && !astx.IsNil(info, as.Rhs[j]) {
+							replaced = true
+						}
+					}
+				}
+			}
+			if !errNil && !replaced {
+				badUses++
+			}
+			return false
+		}
+		w.Walk()
+		c.Check(badUses == 0 && !w.Truncated, "ServeHTTP/ctx-never-nil", fd.Pos(), "a SetTimeout implementation returns a nil context with its error; ServeHTTP uses the context on %d path position(s) where the error may be non-nil and the context was not replaced", badUses)
+	} else {
+		c.Ok("ServeHTTP/ctx-never-nil", fd.Pos(), "no SetTimeout implementation returns a nil context")
+	}
 	// ctx is reassigned only on the invalid-timeout path
 	reassign := 0
 	ast.Inspect(fd.Body, func(n ast.Node) bool {
